@@ -158,6 +158,20 @@ def corpus_part(rep, prop, refs=False):
             l, clause = info["progress"].get(i, (0, "unexplained_event"))
             rep.violation(f"{prop}:{clause}:suite_corpus", f"form {o['tag']} rejected at event {l} clause {clause}; status={o['res']['status']} {str(o['res'].get('message'))[:120]}",
                           {"suite_corpus": True, "tag": o["tag"], "wb": o["wb"], "clause": clause, "event": l})
+    if prop == "C02":
+        # forms outside the modelled fragment (loops, osm, cascading selects, includes ...): C02's demand on the emitted document is
+        # stated on the document alone and is decided for them too ("free" event)
+        out = [o for o in outs if not o.get("frag") and o["res"]["status"] == "ok" and o.get("trace") and o["trace"][-1].get("ev") == "end"]
+        free = [[o["trace"][0], {"ev": "free", "status": "ok", "obs": o["trace"][-1]["obs"]}] for o in out]
+        if free:
+            accf, infof = tlc.validate_traces(TRACE_MOD, TRACE_CFG, free, shards=4, env={"PROP": prop, "VERIF_SRC": "suite"}, tag="corpusfree", timeout=900)
+            rep.traces_validated += len(accf)
+            rep.extra["trace_runs"].append({"source": "suite-corpus forms outside the fragment: closure of the emitted document alone", "traces": len(free), "accepted": len(accf)})
+            for i, o in enumerate(out):
+                rep.case({"suite_form_free": o["tag"]["suite_form"]})
+                if i not in accf:
+                    l, clause = infof["progress"].get(i, (0, "unexplained_event"))
+                    rep.violation(f"{prop}:{clause}:suite_corpus_free", f"form {o['tag']} (outside the fragment) clause {clause}", {"suite_corpus": True, "tag": o["tag"], "wb": o["wb"], "clause": clause, "event": l})
 
 
 def suite_part(rep, prop):
